@@ -103,6 +103,10 @@ pub fn datetimes() -> Vec<DateTime<Utc>> {
         Utc.with_ymd_and_hms(2016, 12, 31, 23, 59, 59).unwrap(),
         Utc.with_ymd_and_hms(1, 1, 1, 0, 0, 0).unwrap(),
         Utc.with_ymd_and_hms(-1, 6, 15, 1, 2, 3).unwrap(),
+        // leap seconds (chrono keeps them as a nanosecond part >= 10^9 in second 59): a real one, one with a fraction, one at an arbitrary minute
+        DateTime::from_timestamp(1_435_708_799, 1_000_000_000).unwrap(),
+        DateTime::from_timestamp(1_483_228_799, 1_500_000_000).unwrap(),
+        DateTime::from_timestamp(1_435_667_699, 1_999_999_999).unwrap(),
     ]
 }
 
@@ -220,6 +224,13 @@ pub fn random_value(rng: &mut crate::rng::Rng, t: &str) -> Value {
                 _ => rng.range(-62_135_596_800, 253_402_300_799), // years 1..9999
             };
             let nanos = if rng.chance(1, 2) { 0 } else { rng.below(1_000_000_000) as u32 };
+            if rng.chance(1, 16) {
+                // a leap second: second 59 of some minute with a nanosecond part >= 10^9
+                let s59 = secs - secs.rem_euclid(60) + 59;
+                if let Some(d) = DateTime::from_timestamp(s59, 1_000_000_000 + nanos) {
+                    return Value::DateTime(d);
+                }
+            }
             Value::DateTime(DateTime::from_timestamp(secs, nanos).unwrap_or(DateTime::<Utc>::MIN_UTC))
         }
         "Duration" => {
